@@ -12,7 +12,7 @@ Section Iter.
   (* related before the first Next (pi_start is 0 on both sides) *)
   Definition piR0 (pw pl : piter) : Prop :=
     pi_path pw = W (pi_path pl) /\ pi_end pw = 2 + pi_end pl /\ pi_vnl pw = 2 /\ pi_vnl pl = 0
-    /\ okstr (pi_path pl).
+    /\ okstr (pi_path pl) /\ (exists r, pi_path pl = SLASH :: r).
 
   (* related after a Next *)
   Definition piR (pw pl : piter) : Prop :=
@@ -21,9 +21,9 @@ Section Iter.
   Lemma piR_piR0 pw pl : piR pw pl -> piR0 pw pl.
   Proof. intros H. exact (proj1 H). Qed.
 
-  Lemma pi_new_R0 (q : str) : okstr q -> piR0 (pi_new Windows (W q)) (pi_new Linux q).
+  Lemma pi_new_R0 (q : str) : okstr q -> (exists r, q = SLASH :: r) -> piR0 (pi_new Windows (W q)) (pi_new Linux q).
   Proof.
-    intros Hq. unfold piR0, pi_new. rewrite (vnl_W d Hd). cbn [pi_path pi_end pi_vnl volume_name_len].
+    intros Hq Hr. unfold piR0, pi_new. rewrite (vnl_W d Hd). cbn [pi_path pi_end pi_vnl volume_name_len].
     repeat split; auto.
   Qed.
 
@@ -65,7 +65,7 @@ Section Iter.
     /\ piR (snd (pi_next Windows pw)) (snd (pi_next Linux pl))
     /\ pi_is_last (snd (pi_next Windows pw)) = pi_is_last (snd (pi_next Linux pl)).
   Proof.
-    intros (Hpath & Hend & Hvw & Hvl & Hok). unfold pi_next.
+    intros (Hpath & Hend & Hvw & Hvl & Hok & Hrt). unfold pi_next.
     rewrite Hpath, Hend, (length_W d). change (S (2 + pi_end pl)) with (2 + S (pi_end pl)).
     rewrite leb_2.
     destruct (Nat.leb (length (pi_path pl)) (S (pi_end pl))) eqn:Hle; cbn [fst snd].
@@ -90,20 +90,39 @@ Section Iter.
       + unfold pi_is_last. cbn [pi_path pi_end]. rewrite (length_W d). reflexivity.
   Qed.
 
-  (* ReplacePart with related absolute link targets *)
-  Theorem pi_replace_R (pw pl : piter) (r : str) : piR pw pl -> okstr (SLASH :: r) ->
-    fst (pi_replace_part Windows pw (W (SLASH :: r))) = fst (pi_replace_part Linux pl (SLASH :: r))
-    /\ piR (snd (pi_replace_part Windows pw (W (SLASH :: r)))) (snd (pi_replace_part Linux pl (SLASH :: r))).
+  (* link targets: portable, absolute (then spelled with the volume on the Windows side) or relative *)
+  Definition lnk_rel (lw ll : str) : Prop :=
+    okstr ll /\ (((exists r, ll = SLASH :: r) /\ lw = W ll) \/ (relstr ll /\ lw = map phi ll)).
+
+  (* ReplacePart with related link targets *)
+  Theorem pi_replace_R (pw pl : piter) (lw ll : str) : piR pw pl -> lnk_rel lw ll ->
+    fst (pi_replace_part Windows pw lw) = fst (pi_replace_part Linux pl ll)
+    /\ piR (snd (pi_replace_part Windows pw lw)) (snd (pi_replace_part Linux pl ll)).
   Proof.
-    intros ((Hpath & Hend & Hvw & Hvl & Hok) & Hst & Hge & _) Hr. unfold pi_replace_part.
-    rewrite (is_abs_W d Hd). change (is_abs Linux (SLASH :: r)) with true. cbv iota.
-    rewrite Hpath, Hend, (skipn_W d).
-    destruct (@join2_W d Hd (SLASH :: r) (skipn (pi_end pl) (pi_path pl))) as [HJ HJok];
-      [discriminate|exact Hr|apply okstr_skipn, Hok|].
-    rewrite HJ, Hst, (length_W d), !(firstn_W d), (str_eqb_W d).
-    match goal with |- context [join Linux ?l] => set (np := join Linux l) in * end.
-    repeat match goal with |- context [join Linux ?l] => change (join Linux l) with np end.
-    rewrite leb_2.
+    intros ((Hpath & Hend & Hvw & Hvl & Hok & (q' & Hq)) & Hst & Hge & _) (Hokl & Hl). unfold pi_replace_part.
+    assert (HJ : exists np, (if is_abs Windows lw
+                             then join Windows [lw; skipn (pi_end pw) (pi_path pw)]
+                             else join Windows [firstn (pi_start pw) (pi_path pw); lw; skipn (pi_end pw) (pi_path pw)]) = W np
+                            /\ (if is_abs Linux ll
+                                then join Linux [ll; skipn (pi_end pl) (pi_path pl)]
+                                else join Linux [firstn (pi_start pl) (pi_path pl); ll; skipn (pi_end pl) (pi_path pl)]) = np
+                            /\ okstr np /\ exists r, np = SLASH :: r).
+    { rewrite Hpath, Hend, Hst, (skipn_W d), (firstn_W d).
+      assert (Hsk : okstr (skipn (pi_end pl) (pi_path pl))) by (apply okstr_skipn, Hok).
+      destruct Hl as [((r & ->) & ->)|(Hrel & ->)].
+      - rewrite (is_abs_W d Hd). change (is_abs Linux (SLASH :: r)) with true. cbv iota.
+        destruct (@join_W d Hd (SLASH :: r) [skipn (pi_end pl) (pi_path pl)]) as [E Hj];
+          [discriminate|exact Hokl|constructor; [exact Hsk|constructor]|].
+        eexists. split; [exact E|]. split; [reflexivity|]. split; [exact Hj|apply join_rooted].
+      - destruct (is_abs_rel Hokl Hrel) as [-> ->].
+        assert (Hf : exists f', firstn (pi_start pl) (pi_path pl) = SLASH :: f').
+        { rewrite Hq. destruct (pi_start pl) as [|n]; [lia|]. cbn [firstn]. eauto. }
+        destruct Hf as (f' & Hf).
+        destruct (@join_W d Hd (firstn (pi_start pl) (pi_path pl)) [ll; skipn (pi_end pl) (pi_path pl)]) as [E Hj];
+          [rewrite Hf; discriminate|apply okstr_firstn, Hok|constructor; [exact Hokl|constructor; [exact Hsk|constructor]]|].
+        eexists. split; [exact E|]. split; [reflexivity|]. split; [exact Hj|]. rewrite Hf. apply join_rooted. }
+    destruct HJ as (np & EW & EL & Hoknp & Hrt). rewrite EW, EL.
+    rewrite Hpath, Hst, (length_W d), !(firstn_W d), (str_eqb_W d), leb_2.
     destruct (Nat.leb (length np) (pi_start pl) || negb (str_eqb (firstn (pi_start pl) np) (firstn (pi_start pl) (pi_path pl))));
       cbn [fst snd]; (split; [reflexivity|]).
     - unfold piR, piR0, pi_reset. cbn [pi_path pi_start pi_end pi_vnl]. rewrite Hvw, Hvl. repeat split; auto.
